@@ -68,6 +68,7 @@ func verifC03Tokens(k int, indentSecondLine bool) {
 		typ := rt.Int("type")
 		rt.Assume(rt.And(typ > int(token.EOF), typ <= int(token.ELIPSIS)))
 		rt.Assume(rt.And(typ != int(token.COMMENT), typ != int(token.ALIAS_PARAMETER)))
+		rt.Assume(typ != int(token.BINDE)) // an import statement reads the file system (outside the claim)
 		lit := "x"
 		t := token.Token{Type: token.TokenType(typ), Literal: lit,
 			Range: token.Range{Start: token.Position{Line: 1, Column: uint(2*i + 1)}, End: token.Position{Line: 1, Column: uint(2*i + 2)}}}
@@ -135,6 +136,7 @@ func verifC03AfterPrefix(k int) {
 		typ := rt.Int("type")
 		rt.Assume(rt.And(typ > int(token.EOF), typ <= int(token.ELIPSIS)))
 		rt.Assume(rt.And(typ != int(token.COMMENT), typ != int(token.ALIAS_PARAMETER)))
+		rt.Assume(typ != int(token.BINDE)) // an import statement reads the file system (outside the claim)
 		t := token.Token{Type: token.TokenType(typ), Literal: "x", Indent: indent,
 			Range: token.Range{Start: token.Position{Line: line, Column: col + uint(2*i)}, End: token.Position{Line: line, Column: col + uint(2*i) + 1}}}
 		toks = append(toks, t)
